@@ -138,3 +138,8 @@ func Batch(t *rapid.T, label string, max int, seq *int) []WPoint {
 	}
 	return out
 }
+
+// IntField is a one-field set holding an integer (helper for deterministic reproducers).
+func IntField(name string, v int64) map[string]model.Val {
+	return map[string]model.Val{name: {K: model.Integer, I: v}}
+}
